@@ -34,6 +34,11 @@ def with_data_segment(image):
     return R1.Image(w, list(image.segments) + [(DATA_SEG, 4)], data)
 
 
+def labels(w):
+    """the debugger's label table: full label names, two of them spelled with hex digits only (a label wins over a number)"""
+    return {'cafe': DATA_SEG * w, 'c0': 0, 'ns.sub.x': w}
+
+
 def commands(w, image):
     """the command alphabet (text, kind, arg)"""
     a_code = 0
@@ -48,6 +53,8 @@ def commands(w, image):
         (f'r :h1:{a_code}', 'read', ('var', 'h', 1, a_code)), (f'read :b2:{a_code}', 'read', ('var', 'b', 2, a_code)),
         (f'r :B2:{dv}', 'read', ('var', 'B', 2, dv)), (f'r :h2:{dv}', 'read', ('var', 'h', 2, dv)), (f'r :b2:{dv}', 'read', ('var', 'b', 2, dv)),
         (f'r :B1:{2 * w}', 'read', ('var', 'B', 1, 2 * w)), (f'r {far}', 'read', ('word', far)), ('r nolabel', 'read', ('nolabel',)),
+        ('r cafe', 'read', ('word', dv)), ('r :B2:cafe', 'read', ('var', 'B', 2, dv)), ('r :h1:c0', 'read', ('var', 'h', 1, a_code)), ('r c0', 'read', ('word', a_code)),
+        ('r ns.sub.x', 'read', ('word', a_data)), ('r CAFE', 'read', ('word', 0xCAFE)),
         ('h', 'noop', None), ('foo', 'noop', None), ('', 'noop', None), ('c 5', 'noop', None), ('q', 'quit', None),
     ]
 
@@ -70,6 +77,8 @@ def model_read(image, answers, nops, spec, w):
     if spec[0] == 'unaligned' or spec[0] == 'nolabel':
         return ('fail',)
     if spec[0] == 'word':
+        if spec[1] % w:
+            return ('fail',)
         v = word(spec[1])
         return ('value', v) if v is not None else ('fail',)
     _, t, L, addr = spec
@@ -128,7 +137,8 @@ def run_session(path, image, answers, breakpoints, script, w, cmds, DEVICE, prob
     from flipjump.interpreter import fjm_run
     from flipjump.interpreter.debugging.breakpoints import BreakpointHandler
     text = ''.join(cmds[c][0] + '\n' for c in script)
-    handler = BreakpointHandler({a: None for a in breakpoints}, {}, {})
+    l2a = labels(w)
+    handler = BreakpointHandler({a: None for a in breakpoints}, {a: n for n, a in l2a.items()}, dict(l2a))
     dev = DEVICE(answers)
     so, si = sys.stdout, sys.stdin
     buf = io.StringIO()
